@@ -172,14 +172,6 @@ func runSeq(h []sop) bfs.Outcome {
 	return bfs.Outcome{Key: fmt.Sprintf("%x|%x|%v", hashStr(m.cur), hashStr(stale), lastCand != nil && content(lastCand) == m.cur), Obs: fmt.Sprintf("%x", hashStr(m.cur))}
 }
 
-func hashStr(s string) uint32 {
-	var h uint32 = 2166136261
-	for i := 0; i < len(s); i++ {
-		h = (h ^ uint32(s[i])) * 16777619
-	}
-	return h
-}
-
 func TestVerif(t *testing.T) {
 	vrt.Run(t, "C35", func(r *vrt.R) {
 		var rp bfs.ReplayData[sop]
